@@ -428,7 +428,12 @@ def handleC41 (op : Op) (o : Json) : Except String Verdict := do
   if oc == "panic" || oc == "fatal" then return .ok
   let before ← decBoards o "before"
   match o.getObjVal? "after" with
-  | .error _ => return .ok      -- a refusal whose left-over graph no longer compiles is reported by C36's stream
+  | .error _ =>
+    -- a refused edit on a nested board that leaves the caller's graph in a state that no longer compiles: no board
+    -- "compiles to the same content as before"
+    if oc == "err" && !op.board.isEmpty && (optStr o "refusedCompileErr").isSome then
+      return specfalse s!"refused-left-graph-does-not-compile-{op.kind}" s!"{describe op}: {(optStr o "err").getD ""}"
+    return .ok
   | .ok _ =>
     let after ← decBoards o "after"
     let pre := if oc == "ok" then "" else "refused-"
